@@ -79,6 +79,11 @@ def setup(P):
     _st['FalseLeaf'] = FalseLeaf
 
 
+def case_reset(idx):
+    # tokens are a function of the case index, so that a single case replays exactly as it ran inside its shard
+    _n[0] = idx * 1000
+
+
 def val():
     _n[0] += 1
     return float(_n[0])
